@@ -1560,7 +1560,7 @@ def value_categories(ctx, rid, files):
     """A8 over every function of the files a property is anchored in: no variable is used again after it was passed on
     with std::move / an rvalue std::forward, and nothing is moved out of an object the function only refers to (an
     lvalue-reference parameter in this instantiation, a local reference into storage owned elsewhere)"""
-    from .typestate import moves_from_lvalue_ref, uses_after_move, refs_into_dead_temporaries
+    from .typestate import moves_from_lvalue_ref, uses_after_move, refs_into_dead_temporaries, unchecked_front_back
     ctx.rule(rid, "no use after std::move / rvalue std::forward; no std::move out of an object held by lvalue reference; no "
              "reference into the payload that outlives the temporary handle it was reached through", floor=10)
     fxb, _ = ctx.fx
@@ -1573,6 +1573,9 @@ def value_categories(ctx, rid, files):
     for k, v in want.items():
         if got.get(k) != v:
             ctx.broken("controls fx::fwd_twice / fx::fwd_sink: %s expected %s, got %s" % (k, v, got.get(k)))
+    fbk = {f.name: bool(unchecked_front_back(f)) for f in fxb.functions() if f.qname.startswith("fx::fwd_twice::first_")}
+    if fbk != {"first_unchecked": True, "first_checked": False}:
+        ctx.broken("controls fx::fwd_twice::first_*: the unchecked front() must be reported, the checked one not (%s)" % fbk)
     for f in ctx.fb.functions():
         if not in_files(f, files):
             continue
@@ -1580,6 +1583,21 @@ def value_categories(ctx, rid, files):
         ctx.ob(rid, not uam, f.loc(uam[0][0]) if uam else f.where, "%s uses nothing after having moved / forwarded it away" % f.name,
                "" if not uam else "%s is passed on as an rvalue here and used again at %s: a callable or value that gives its "
                "state away on the first use is empty on the second" % (uam[0][1], f.loc(uam[0][2])), fn=f.label, inst=f.qname)
+        ufb = unchecked_front_back(f)
+        ctx.ob(rid, not ufb, f.loc(ufb[0][0]) if ufb else f.where, "%s takes front() / back() only of a container it knows to be "
+               "non-empty" % f.name, "" if not ufb else "%s() on %s without a dominating emptiness test: undefined behaviour when the "
+               "container is empty (an entry created empty elsewhere is enough)" % ((ufb[0][0].get("callee") or {}).get("name"), ufb[0][1]),
+               fn=f.label, inst=f.qname)
+        # a unique_ptr whose deleter gives something back (a reader registration, a lock) must not be release()d: the
+        # give-back then never happens
+        for st_ in f.stmts.values():
+            if st_["k"] == "CXXMemberCallExpr" and (st_.get("callee") or {}).get("name") == "release":
+                ot_ = (f.s(st_.get("obj")) or {}).get("t", "")
+                if "std::unique_ptr<" in ot_ and re.search(r"gmlc::libguarded::\w+<.*>::shared_deleter", ot_):
+                    ctx.ob(rid, False, f.loc(st_), "%s never release()s a handle whose deleter gives a registration back" % f.name,
+                           "release() on %s: the pointer is dropped without running the deleter, the reader registration it stands "
+                           "for is never given back and the next writer waits for it for ever" % path(f, f.s(st_["obj"])),
+                           fn=f.label, inst=f.qname)
         dead = refs_into_dead_temporaries(f)
         ctx.ob(rid, not dead, f.loc(dead[0][0]) if dead else f.where, "%s keeps no reference into the payload beyond the handle "
                "it was reached through" % f.name, "" if not dead else "'%s' is bound to the payload through a temporary handle that is "
